@@ -90,7 +90,7 @@ PROBES = {
     'xwiki_macro': '{{macro}}\nbody\n{{/macro}}\n',
     'hr': '***\n---\n___\n',
     # benign custom tokens: must be literal text outside their context
-    'custom': '{{x}} and {{*y*}} <<twin *t*>>\n\n!!! bang *line*\n\npara\n!!! interrupts?\n',
+    'custom': '{{x}} and {{*y*}} <<twin *t*>> --dash--\n\n!!! bang *line*\n\npara\n!!! interrupts?\n\nintro\n!! callout !!\nmore\n',
     # edge
     'empty': '',
     'blank': '\n',
